@@ -421,6 +421,7 @@ func propC01() *PropSpec {
 			}
 			js = append(js, jobsN("js", "VerifJSString", pick(rng(0, 4), rng(0, 5)), "string literal body of n bytes over the escape alphabet, both quotes, allowTemplate symbolic")...)
 			js = append(js, jobsN("js", "VerifJSStringWitness", []int{0}, "recorded witnesses of known findings of the string kernel")...)
+			js = append(js, jobsN("js", "VerifJSStringTemplate", pick(rng(1, 3), rng(1, 4)), "n units spelling $ { ` \\ followed by three newline escapes, template literal allowed: same value, no live substitution")...)
 			js = append(js, jobsN("js", "VerifJSStringUnits", pick(rng(1, 2), rng(1, 3)), "string literal body of n units out of 36 escapes/quotes/digits")...)
 			js = append(js, jobsN("js", "VerifJSFalsyHex", pick(rng(1, 5), rng(1, 7)), "isFalsy(0x<n hex digits>)")...)
 			js = append(js, jobsN("js", "VerifJSFalsyLiteral", pick(rng(1, 5), rng(1, 7)), "isFalsy of decimal/binary/octal/string literals of n bytes under negations")...)
